@@ -508,8 +508,27 @@ macro_rules! route_obj {
         }
     }};
 }
+/// for a LONG raw hash whose block hash 2 fits the short form only after run collapsing: the routes
+/// into the short normalising type (parsing the long raw text directly, narrowing after normalising)
+macro_rules! short_routes {
+    (true, $routes:expr, $raw:expr, $text:expr) => {{
+        let n = $raw.normalize();
+        if n.block_hash_2().len() <= 32 {
+            route_obj!($routes, "short_parse", $text.parse::<FuzzyHash>().unwrap());
+            route_obj!($routes, "short_from_bytes", FuzzyHash::from_bytes($text.as_bytes()).unwrap());
+            route_obj!($routes, "short_try_from", FuzzyHash::try_from(n).unwrap());
+            route_obj!($routes, "short_try_into_mut", {
+                let mut d = FuzzyHash::new_from_internals_near_raw(9, &[1, 2, 3, 4, 5, 6, 7, 8], &[9u8, 10, 11, 12, 13, 14, 15, 16, 17, 18, 19, 20, 21, 22, 23, 24, 25, 26, 27, 28, 29, 30, 31, 32, 33, 34, 35, 36, 37, 38, 39, 40]);
+                n.try_into_mut_short(&mut d).unwrap();
+                d
+            });
+            route_obj!($routes, "short_dual_parse", $text.parse::<LongDualFuzzyHash>().unwrap().to_normalized());
+        }
+    }};
+    (false, $routes:expr, $raw:expr, $text:expr) => {{}};
+}
 macro_rules! norm_event {
-    ($R:ty, $N:ty, $D:ty, $sh:expr, $h:expr, $long:expr) => {{
+    ($R:ty, $N:ty, $D:ty, $sh:expr, $h:expr, $long:tt) => {{
         let raw: $R = <$R>::new_from_internals_near_raw($h.k, &$h.a, &$h.b);
         let text = raw.to_string();
         let mut routes: Vec<(String, String)> = vec![];
@@ -546,6 +565,7 @@ macro_rules! norm_event {
             r2.normalize_in_place();
             r2
         });
+        short_routes!($long, routes, raw, text);
         let isn_raw = raw.is_normalized();
         let unchanged = raw.normalize().to_raw_form() == raw;
         let items: Vec<String> = routes.iter().map(|(k, v)| format!("\"{}\":{}", k, v)).collect();
@@ -629,6 +649,30 @@ pub fn drive_norm(a: &Args, thorough: bool) {
         ev_norm(&mut sh, &H { k: (i % 31) as u8, a: v.clone(), b: other.clone() });
         ev_norm(&mut sh, &H { k: (i % 31) as u8, a: other.clone(), b: v.clone() });
         n += 2;
+    }
+    // block hash 2 longer than the short capacity raw, but 31 / 32 symbols after run collapsing
+    for nlen in [31usize, 32] {
+        for r in [4usize, 5, 8, 20, 33] {
+            for pos in 0..3 {
+                sh.next_unit();
+                let d = nlen - 3;
+                let filler: Vec<u8> = (0..d).map(|i| ((i * 7 + 3) % 64) as u8).collect();
+                let at = match pos {
+                    0 => 0,
+                    1 => d / 2,
+                    _ => d,
+                };
+                let left = if at > 0 { filler[at - 1] } else { 255 };
+                let right = if at < d { filler[at] } else { 255 };
+                let c = (0..64u8).find(|x| *x != left && *x != right).unwrap();
+                let mut b = filler[..at].to_vec();
+                b.extend(std::iter::repeat(c).take(r));
+                b.extend_from_slice(&filler[at..]);
+                b.truncate(64);
+                ev_norm(&mut sh, &H { k: (nlen + r) as u8 % 31, a: vec![1, 2, 3], b });
+                n += 1;
+            }
+        }
     }
     for _ in 0..(if thorough { 60000 } else { 4000 }) {
         sh.next_unit();
